@@ -433,8 +433,8 @@ func (r *rwRT) ruleTmplYieldFunc() {
 			order = append(order, "ranges")
 		case "rewriteStmts":
 			order = append(order, "stmts")
-			if len(e.Args) == 4 {
-				stmtsBlock = e.Args[3]
+			if len(e.Args) >= 3 {
+				stmtsBlock = e.Args[len(e.Args)-1] // the output block is the last argument (with or without a start index)
 			}
 		case "rewriteBreakContinues":
 			order = append(order, "branches")
